@@ -61,7 +61,7 @@ MORE['C18'] = dict(
           "together with the presence of the invitation, key-generation and signing parts through every run; no_panic_of_inv). Props/C18Node.lean: node_never_panics_run (from an empty state database, after ANY sequence of messages - genuine, forged, junk, duplicated, "
           "any number of rounds - handling any further message ends with ok or a rejection; nodeOK_step: every dump the node stores restores to an instance satisfying the invariants). Props/C18.lean: reject_is_noop, top_reject_is_noop (every unsuccessful end leaves rounds, "
           "pool, tombstones and signature store the value they were), exec_refused_is_noop, approve_refused_is_noop, verify_never_panics, expansion_never_panics (TasksToMessages ends with a list or an error for every task list, reversed / negative / astronomically large ranges included), "
-          "panic_only_from_callbacks. In the models a Go panic is the explicit outcome `panic`; that the models place it exactly where the Go code can panic is tied by fsmdiff/nodediff (every panic of the real code under recover() is compared). Not modelled: the re-initialisation "
+          "panic_only_from_callbacks. Props/C18Reinit.lean: node_never_panics_run_reinit (the same with re-initialisation requests anywhere in the history: no step of any replay panics; nodeOK_reinit). Props/C18Air.lean, over facts the translator reads off airgapped.go on every run (Gen/AirGlue.lean): order_in_source_air (the operation is handled, then logged, then the result file is opened), fatal_leaves_log / fatal_then_restart (an operation that fails fatally writes nothing durable: a restart rebuilds what it would have rebuilt before), log_first_poisons_replay (with the log written first one malformed file makes every later replay fail: explicit witness), dispatch_recovers (a panic in a handler becomes a handler error), handled_have_error_event, error_events_accepted (the error event of every dispatched operation type is a public row of the generated tables in the state the operation is issued in), replay_does_not_log. In the models a Go panic is the explicit outcome `panic`; that the models place it exactly where the Go code can panic is tied by fsmdiff/nodediff (every panic of the real code under recover() is compared). Not modelled beyond that: the re-initialisation "
           "handler, the answer path's write of the public polynomial into a round without key-generation data, and the airgapped handlers (kyber, ECIES), which are covered by fault injection on the real machine: airdiff. Tie: nodediff (every mutation kind incl. junk rounds, "
           "unknown events, garbage, negative ids, replays, cancelled-and-restarted signing rounds; byte-exact state comparison after every rejected message), sszdiff, airdiff."),
     ref='7 C18', note=NODE_NOTE + " Airgapped machine: real code under monitors only; no model of the handlers.")
@@ -97,7 +97,7 @@ MORE['C13'] = dict(
           "Send and SaveFSM before DeleteOperation). The hypothesis of crash_safe is PROVED for the model's node handler, for every node state, message and pair of clock readings, with no reachability assumption: "
           "C13Fsm.fsm_reapply / instance_reapply (every event a round machine accepted it refuses, with an error, when applied again to its result), C13Node/C13Start.node_reapply (a handled message, handled again, is rejected or accepted without any change "
           "and without a new operation — hand-overs, the restart after a collected batch, lazily restarted cancelled batches and the start of a batch included), saveSignatures_idem (the signature store, as a list, is unchanged by saving the same "
-          "signatures again), node_reapplySafe, node_crash_safe(_final). Assumed, not proved: atomic single writes, the re-initialisation handler (a kill inside reinitDKG is not covered). Tie: crashdiff kills a real node before each of its "
+          "signatures again), node_reapplySafe, node_crash_safe(_final); with one clock reading per start of the process (Props/C13Clock.lean): crash_safe_clock, node_accept_indep (outcome, operation and broadcasts do not depend on the node clock, for clocks after the zero time), node_crash_safe_clock(_final). Assumed, not proved: atomic single writes. The re-initialisation handler is NOT crash safe: KNOWN-FINDING C13-kill-inside-reinit (a kill after the first replayed message was stored: the restarted node finds the round, returns at once and moves on; C13Reinit.interrupted_reinit_is_abandoned on the model, reinitdiff kills a real node before every durable effect of the handler). Tie: crashdiff kills a real node before each of its "
           "durable effects (exhaustive in the thorough tier: every effect of a (2,2) and a (3,2) ceremony, plus multi-kill runs), restarts it with the real constructors and requires: key generation and a later batch complete on every node, "
           "the restarted node agrees with a node that never crashed, no operation is left over or missing; nodediff ties the node model (duplicate deliveries included)."),
     ref='7 C13', note=NODE_NOTE)
